@@ -264,6 +264,14 @@ impl<A: Sx> System for Edits<A> {
             v.push(Op::ExtendInherent(k));
             v.push(Op::ExtendTrait(k));
         }
+        if self.boundary {
+            // one call carrying more than one / two machine words of symbols (anything batched per word shows here)
+            let spw = 64 / A::BITS as usize;
+            for k in [spw + 1, 2 * spw + 3] {
+                v.push(Op::ExtendInherent(k as u8));
+                v.push(Op::ExtendTrait(k as u8));
+            }
+        }
         // the same through iterators whose size_hint is not exact: (lower bound, actual) pairs
         for hint in 0..HINTS.len() as u8 {
             v.push(Op::ExtendHinted(hint));
@@ -500,7 +508,7 @@ fn run_g<A: Sx>(c: &Case, out: &mut Out) {
 fn main() {
     main_loop("C06", gen, run, |_| {
         json!({
-            "alphabet": ["push(x)", "extend (inherent) 0/1/2 symbols", "Extend::extend 0/1/2 symbols", "append(w)", "prepend(w)", "insert(i, w) for every i in 0..=len", "remove(r) for every in-bounds (a,b) in 11 RangeBounds forms", "truncate(n) for every n <= len", "clear"],
+            "alphabet": ["push(x)", "extend (inherent) 0/1/2 symbols", "Extend::extend 0/1/2 symbols", "both extends with spw+1 and 2*spw+3 symbols in one call (boundary seeds)", "append(w)", "prepend(w)", "insert(i, w) for every i in 0..=len", "remove(r) for every in-bounds (a,b) in 11 RangeBounds forms", "truncate(n) for every n <= len", "clear"],
             "range_forms": FORMS,
             "argument_windows": "donor windows at bit offset 0, mid-word and touching the word boundary x lengths {0,1,2} (fixpoint/stateless) or {1, spw+1} (boundary)",
             "state_key": "(model symbols, into_raw() words, internal head bit index read from bitvec's serde form)",
